@@ -1405,6 +1405,7 @@ type pathState struct {
 	lastModel map[string]uint64
 	endNondet []NondetRec
 	lastNow   *smt.Term
+	clock     int64
 }
 
 type NondetRec struct {
